@@ -126,7 +126,7 @@ theorem serValueByName_position (d : Desc) (fvs : List (Field × Val)) (db : Lis
   · cases h
 
 /-- the positions of columns no field is bound to hold null, or are not sent at all (trailing ones), and
-nothing is written beyond the database list -/
+nothing is written beyond the database list (`serValueByName_exact` below says exactly which of the two) -/
 theorem serValueByName_unmatched_null (d : Desc) (fvs : List (Field × Val)) (db : List Col) (cells : List Cell)
     (hv : ValidNames fvs) (h : serValueByName d fvs db = .ok cells) :
     cells.length ≤ db.length ∧
@@ -144,6 +144,68 @@ theorem serValueByName_unmatched_null (d : Desc) (fvs : List (Field × Val)) (db
         have := emit_null (fv (entries fvs)) db 0 i x hx
           (Or.inr ⟨i, c, by omega, hi, by rw [fv_entries]; exact hf⟩)
         simp [this]
+  · cases h
+
+private theorem serVal_some {f : Field} {v : Val} {ty : Ty} {cell : Cell} (h : serVal f v ty = some cell) :
+    cell = v := by
+  unfold serVal at h
+  cases v with
+  | none => simpa using h.symm
+  | some b =>
+    simp only [] at h
+    split at h
+    · simpa using h.symm
+    · cases h
+
+/-- the cell that belongs at the position of column `c`: the bound field's value, null for an unbound column -/
+def boundCell (fvs : List (Field × Val)) (c : Col) : Cell := ((fieldFor fvs c.name).map (·.2)).getD none
+
+/-- `serValueByName_exact` — the exact output, length included ("nulls in the middle, nothing for trailing
+unmatched fields"): on success there is a cut `k` such that exactly the first `k` columns get a cell — the
+bound field's value, or an explicit null for an unbound column in between —, `k` is 0 or the position just
+after the LAST bound column, and every column from `k` on is unbound and gets nothing at all. -/
+theorem serValueByName_exact (d : Desc) (fvs : List (Field × Val)) (db : List Col) (cells : List Cell)
+    (hv : ValidNames fvs) (h : serValueByName d fvs db = .ok cells) :
+    ∃ k, k ≤ db.length ∧ cells = (db.take k).map (boundCell fvs) ∧
+      (∀ (i : Nat) (c : Col), k ≤ i → db[i]? = some c → fieldFor fvs c.name = none) ∧
+      (k = 0 ∨ ∃ c, db[k - 1]? = some c ∧ (fieldFor fvs c.name).isSome = true) := by
+  rw [serValueByName_closed d fvs db hv] at h
+  split at h
+  · rename_i hall
+    split at h
+    · cases h
+    · cases h
+      obtain ⟨k, hk, he, htail, hlast⟩ := emit_exact (fv (entries fvs)) db 0
+      refine ⟨k, hk, ?_, ?_, ?_⟩
+      · rw [he]
+        by_cases hk0 : k = 0
+        · simp [hk0]
+        · simp only [hk0, if_false, List.replicate_zero, List.nil_append]
+          apply List.map_congr_left
+          intro c hc
+          have hcdb : c ∈ db := List.mem_of_mem_take hc
+          have hok : colOk d.forbidExcess (fv (entries fvs)) c = true := List.all_eq_true.mp hall c hcdb
+          unfold specCell boundCell
+          unfold colOk at hok
+          rw [fv_entries] at hok ⊢
+          cases hf : fieldFor fvs c.name with
+          | none => rfl
+          | some p =>
+            obtain ⟨f, v⟩ := p
+            rw [hf] at hok
+            simp only [] at hok ⊢
+            cases hs : serVal f v c.ty with
+            | none => rw [hs] at hok; cases hok
+            | some cell => simp [serVal_some hs]
+      · intro i c hi hc
+        have := htail i c hi hc
+        rw [fv_entries] at this
+        cases hf : fieldFor fvs c.name with
+        | none => rfl
+        | some p => rw [hf] at this; cases this
+      · rcases hlast with h0 | ⟨c, hc, hs⟩
+        · exact Or.inl h0
+        · exact Or.inr ⟨c, hc, by rw [← fv_entries]; exact hs⟩
   · cases h
 
 /-! ### `#[derive(SerializeValue)]`, by name: accepted / rejected exactly as documented -/
@@ -1415,17 +1477,6 @@ theorem row_byname_roundtrip (d : Desc) (fvs : List (Field × Val)) (db : List C
 
 /-! ### ordered flavor, rows: exactly the declared order (with `skip_name_checks`: purely by position) -/
 
-private theorem serVal_some {f : Field} {v : Val} {ty : Ty} {cell : Cell} (h : serVal f v ty = some cell) :
-    cell = v := by
-  unfold serVal at h
-  cases v with
-  | none => simpa using h.symm
-  | some b =>
-    simp only [] at h
-    split at h
-    · simpa using h.symm
-    · cases h
-
 /-- the (field, column) pair of one position is acceptable: the names agree — not looked at under
 `skip_name_checks` — and the value fits the column's type -/
 def PairFits (skipNames : Bool) (p : Field × Val) (c : Col) : Prop :=
@@ -2148,6 +2199,146 @@ theorem tcValueOrdered_iff_walk (d : Desc) (db : List Col) :
     have := dvTcOrd_length _ _ _ db h
     omega
   · simp only [hlt, if_false]
+
+/-! ### ordered rows: the deserialize walk and the round trip -/
+
+/-- documented result of ordered row deserialization: the i-th non-skipped field takes the i-th cell
+(`default_when_null` turning null into the default), skipped fields are `Default::default()`;
+`none` = some cell does not deserialize / a cell is missing -/
+def ordRowExpected : List Field → List Cell → Option (List Val)
+  | [], _ => some []
+  | f :: fs, cells =>
+    if f.skip then (ordRowExpected fs cells).map (defaultVal f :: ·)
+    else match cells with
+      | [] => none
+      | x :: xs =>
+        match deValD f x with
+        | none => none
+        | some v => (ordRowExpected fs xs).map (v :: ·)
+
+private theorem drDeOrd_spec (sn : Bool) (fields : List Field) : ∀ (db : List Col) (cells : List Cell),
+    drTcOrd sn (fields.filter (fun f => !f.skip)) db = .ok () →
+    db.length = (fields.filter (fun f => !f.skip)).length → db.length ≤ cells.length →
+    drDeOrd sn fields (rowItems db cells) =
+      match ordRowExpected fields cells with
+      | some vs => .ok vs
+      | none => .error .drColumnDeserFailed := by
+  induction fields with
+  | nil => intro db cells _ _ _; rfl
+  | cons f fs ih =>
+    intro db cells htc hlen hcells
+    unfold drDeOrd ordRowExpected
+    by_cases hs : f.skip = true
+    · rw [List.filter_cons] at htc hlen
+      simp only [hs, Bool.not_true, Bool.false_eq_true, if_false] at htc hlen
+      simp only [hs, if_true, ih db cells htc hlen hcells]
+      cases ordRowExpected fs cells <;> rfl
+    · simp only [Bool.not_eq_true] at hs
+      rw [List.filter_cons] at htc hlen
+      simp only [hs, Bool.not_false, if_true] at htc hlen
+      simp only [hs, Bool.false_eq_true, if_false]
+      cases db with
+      | nil => simp at hlen
+      | cons c cs =>
+        cases cells with
+        | nil => simp at hcells
+        | cons x xs =>
+          unfold drTcOrd at htc
+          simp only [rowItems]
+          by_cases hn : (!sn && c.name != f.col) = true
+          · simp [hn] at htc
+          · simp only [Bool.not_eq_true] at hn
+            simp only [hn, Bool.false_eq_true, if_false] at htc ⊢
+            split at htc
+            · cases htc
+            · cases hd : deValD f x with
+              | none => rfl
+              | some v =>
+                simp only []
+                rw [ih cs xs htc (by simpa using hlen) (by simpa using hcells)]
+                cases ordRowExpected fs xs <;> rfl
+
+/-- `deRowOrdered_spec`: after a successful ordered row type check, deserializing a row with a cell for every
+column binds purely by position — the i-th non-skipped field gets the i-th cell — and fails (with
+`ColumnDeserializationFailed`) exactly when some cell does not deserialize; none of the generated `panic!`s
+is reachable. -/
+theorem deRowOrdered_spec (d : Desc) (db : List Col) (cells : List Cell)
+    (htc : tcRowOrdered d db = .ok ()) (hlen : db.length ≤ cells.length) :
+    deRowOrdered d db cells =
+      match ordRowExpected d.fields cells with
+      | some vs => .ok vs
+      | none => .error .drColumnDeserFailed := by
+  obtain ⟨h1, _⟩ := (tcRowOrdered_iff d db).mp htc
+  have hwalk : drTcOrd d.skipNameChecks (d.fields.filter (fun f => !f.skip)) db = .ok () := by
+    unfold tcRowOrdered rowRequiredCount at htc
+    have hb : (db.length != (d.fields.filter (fun f => !f.skip)).length) = false := by simp [h1]
+    rw [hb] at htc
+    simpa using htc
+  exact drDeOrd_spec d.skipNameChecks d.fields db cells hwalk h1 hlen
+
+private theorem ordRowExpected_roundtrip (sn : Bool) (fvs : List (Field × Val))
+    (hwt : ∀ p ∈ fvs, WellTyped p.1 p.2) : ∀ (db : List Col) (cells : List Cell),
+    srOrdered sn (fvs.filter (fun p => !p.1.skip)) db = .ok cells →
+    ordRowExpected (fvs.map (·.1)) cells =
+      some (fvs.map (fun p => if p.1.skip then defaultVal p.1 else p.2)) := by
+  induction fvs with
+  | nil => intro db cells _; rfl
+  | cons p fvs ih =>
+    intro db cells h
+    obtain ⟨f, v⟩ := p
+    have ih' := ih (fun q hq => hwt q (List.mem_cons_of_mem _ hq))
+    simp only [List.map_cons]
+    unfold ordRowExpected
+    by_cases hs : f.skip = true
+    · rw [List.filter_cons] at h
+      simp only [hs, Bool.not_true, Bool.false_eq_true, if_false] at h
+      simp only [hs, if_true, ih' db cells h, Option.map_some]
+    · simp only [Bool.not_eq_true] at hs
+      rw [List.filter_cons] at h
+      simp only [hs, Bool.not_false, if_true] at h
+      simp only [hs, Bool.false_eq_true, if_false]
+      cases db with
+      | nil => simp [srOrdered] at h
+      | cons c cs =>
+        unfold srOrdered at h
+        split at h
+        · cases h
+        · cases hsv : serVal f v c.ty with
+          | none => rw [hsv] at h; cases h
+          | some cell =>
+            rw [hsv] at h
+            simp only [] at h
+            have hcell := serVal_some hsv
+            subst hcell
+            cases hr : srOrdered sn (fvs.filter (fun p => !p.1.skip)) cs with
+            | error x => rw [hr] at h; cases h
+            | ok cells' =>
+              rw [hr] at h
+              cases h
+              simp only [deValD_wellTyped f cell (hwt (f, cell) (List.mem_cons_self ..)), ih' cs cells' hr,
+                Option.map_some]
+
+/-- `ordered_row_roundtrip`: for the ordered flavor (names checked or `skip_name_checks`), if row
+serialization succeeds and the column specs pass the type check, deserializing the written cells gives back
+every field's value (`skip` fields as the default) — value → bytes → value is the identity for ordered rows
+too. -/
+theorem ordered_row_roundtrip (d : Desc) (fvs : List (Field × Val)) (db : List Col) (cells : List Cell)
+    (hfl : d.flavor = .ordered) (hfields : d.fields = fvs.map (·.1))
+    (hwt : ∀ p ∈ fvs, WellTyped p.1 p.2)
+    (hser : serRow d fvs db = .ok cells) (htc : tcRowOrdered d db = .ok ()) :
+    deserRow d db cells = .ok (fvs.map (fun p => if p.1.skip then defaultVal p.1 else p.2)) := by
+  unfold serRow at hser
+  rw [hfl] at hser
+  unfold serRowOrdered at hser
+  have hlen : db.length ≤ cells.length := by
+    obtain ⟨h1, _, h3⟩ := (srOrdered_iff _ _ db cells).mp hser
+    rw [h3, List.length_map, h1]
+    exact Nat.le_refl _
+  unfold deserRow
+  rw [hfl]
+  simp only [htc]
+  rw [deRowOrdered_spec d db cells htc hlen, hfields,
+    ordRowExpected_roundtrip d.skipNameChecks fvs hwt db cells hser]
 
 /-! ### `#[scylla(flatten)]`, ordered flavor: serializing the nested struct = serializing its flattened field list -/
 
